@@ -358,6 +358,10 @@ class CliVariants(Stream):
                 region = ""
                 if name == "respelled" and self._two_spellings(case):
                     region = "/one-project-twice-in-a-file"
+                if name.startswith("hashseed") and SS.split_requirements(case):
+                    # D3: which of a requirer's several labels for one project survives is decided by the iteration order
+                    # of a set of extras, i.e. by the hash seed
+                    region = "/split-requirements"
                 fails.append(("C07/output-differs/" + ("hashseed" if name.startswith("hashseed") else name) + region,
                               {"variant": name, "base": base["stdout"], "got": v["stdout"]}))
         return fails
